@@ -59,8 +59,8 @@ type wpipe struct {
 	key     string
 	in      chan []*base.LogRecord
 	worker  *bsupport.LogProcessingWorker
-	caps    []capEntry         // appended by the worker goroutine, read by the driver after a hand-shake
-	pending []*base.LogRecord  // driver side: handed over by connections, not yet given to the worker
+	caps    []capEntry        // appended by the worker goroutine, read by the driver after a hand-shake
+	pending []*base.LogRecord // driver side: handed over by connections, not yet given to the worker
 }
 
 func newPipe(ld *loaded, alloc *base.LogAllocator, mc promreg.MetricCreator, key string, tag string) *wpipe {
@@ -133,13 +133,18 @@ type world struct {
 	timeLoc base.LogFieldLocator
 	scratch []byte
 	// observation
-	seenRec    map[*base.LogRecord]bool
-	recReused  int
-	bufReused  map[string]int
-	bufFresh   int
-	maxLive    int
-	live       int
-	records    int
+	seenRec   map[*base.LogRecord]bool
+	recReused int
+	bufReused map[string]int
+	bufFresh  int
+	maxLive   int
+	live      int
+	records   int
+	// records / backing buffers handed out and not yet given to a worker
+	liveRecs  map[*base.LogRecord]bool
+	liveBufs  map[uintptr]bool
+	liveBufOf map[*base.LogRecord]uintptr
+	doubleUse []string
 }
 
 type wconn struct {
@@ -148,7 +153,8 @@ type wconn struct {
 }
 
 func newWorld(ld *loaded, route string, nConn int) *world {
-	w := &world{ld: ld, route: route, pipes: map[string]*wpipe{}, seenRec: map[*base.LogRecord]bool{}, bufReused: map[string]int{}}
+	w := &world{ld: ld, route: route, pipes: map[string]*wpipe{}, seenRec: map[*base.LogRecord]bool{}, bufReused: map[string]int{},
+		liveRecs: map[*base.LogRecord]bool{}, liveBufs: map[uintptr]bool{}, liveBufOf: map[*base.LogRecord]uintptr{}}
 	w.alloc = base.NewLogAllocator(ld.schema, len(ld.conf.OutputBuffersPairs))
 	w.mf = promreg.NewMetricFactory("c12w_", nil, nil)
 	orcKeys, err := ld.conf.Orchestration.Value.VerifyConfig(ld.schema)
@@ -186,7 +192,7 @@ func (w *world) parse(conn int, line []byte) (*base.LogRecord, string) {
 		pool = w.observe(rec, line)
 	}
 	for i := range in {
-		in[i] = 0xEE
+		in[i] = scrambleByte
 	}
 	if rec != nil {
 		w.conns[conn].buffered = append(w.conns[conn].buffered, rec)
@@ -207,6 +213,10 @@ func (w *world) observe(rec *base.LogRecord, line []byte) string {
 		w.recReused++
 	}
 	w.seenRec[rec] = true
+	if w.liveRecs[rec] {
+		w.doubleUse = append(w.doubleUse, "record struct")
+	}
+	w.liveRecs[rec] = true
 	if len(line) <= 1024 {
 		return ""
 	}
@@ -219,6 +229,11 @@ func (w *world) observe(rec *base.LogRecord, line []byte) string {
 	if *(*byte)(basePtr) != '<' {
 		return "" // not where the record's copy starts (an extraction rewrote the field): no observation
 	}
+	if w.liveBufs[uintptr(basePtr)] {
+		w.doubleUse = append(w.doubleUse, "backing buffer "+sizeClass(len(line)))
+	}
+	w.liveBufs[uintptr(basePtr)] = true
+	w.liveBufOf[rec] = uintptr(basePtr)
 	after := *(*byte)(unsafe.Add(basePtr, len(line)))
 	if after == poisonByte {
 		w.bufReused[sizeClass(len(line))]++
@@ -255,11 +270,11 @@ func (w *world) handOver(conn int) {
 }
 
 // work lets every pipeline with queued records process them; returns the captures.
-func (w *world) work(order []int) []capEntry {
+func (w *world) work(start int) []capEntry {
 	var all []capEntry
 	n := len(w.order)
 	for i := 0; i < n; i++ {
-		p := w.order[(i+pickStart(order, n))%n]
+		p := w.order[(i+start)%n]
 		if len(p.pending) == 0 {
 			continue
 		}
@@ -267,15 +282,15 @@ func (w *world) work(order []int) []capEntry {
 		w.live -= len(batch)
 		p.pending = p.pending[:0]
 		all = append(all, p.run(batch)...)
+		for _, rec := range batch {
+			delete(w.liveRecs, rec)
+			if b, ok := w.liveBufOf[rec]; ok {
+				delete(w.liveBufs, b)
+				delete(w.liveBufOf, rec)
+			}
+		}
 	}
 	return all
-}
-
-func pickStart(order []int, n int) int {
-	if len(order) == 0 || n == 0 {
-		return 0
-	}
-	return order[0] % n
 }
 
 func (w *world) close() {
@@ -300,7 +315,7 @@ func solo(ld *loaded, line []byte, tagOf func(rec *base.LogRecord) string) resul
 	in := append([]byte(nil), line...)
 	rec := parser.Parse(in, fallbackTime)
 	for i := range in {
-		in[i] = 0xEE
+		in[i] = scrambleByte
 	}
 	if rec == nil {
 		return result{st: stRejected}
